@@ -39,6 +39,10 @@ fn concretise(c: &Value, rng: &mut Rng) -> Opts {
 			"nonascii" => Some("Br\u{e9}sil".to_string()),
 			"empty" => Some(String::new()),
 			"odd-ia5" => Some("U$".to_string()),
+			"host-like" => Some("www.example.com".to_string()),
+			"ip-like" => Some("192.0.2.7".to_string()),
+			"email-like" => Some("user@example.com".to_string()),
+			"url-like" => Some("https://example.com/".to_string()),
 			"padded" => Some("  padded name  ".to_string()),
 			"nbsp-padded" => Some("\u{a0}name\u{a0}".to_string()),
 			"tab-newline-padded" => Some("\tname\n".to_string()),
@@ -132,7 +136,7 @@ pub fn run_cases(cases_path: &str, out_path: &str, bin: &str, workdir: &str) {
 		let algs = ["$default", "ed25519", "ecdsa-p256", "ecdsa-p384", "rsa", "ecdsa-p521"];
 		let sans = ["dns", "ip4", "ip6", "nonascii", "dns-trailing-dot", "ip4-mapped", "at-sign"];
 		let countries = ["$default", "printable-all", "printable-question", "nonprintable-gt", "nonprintable-at", "nonascii", "empty"];
-		let cns = ["$default", "utf8", "empty", "printable-question", "padded", "nbsp-padded", "tab-newline-padded"];
+		let cns = ["$default", "utf8", "empty", "printable-question", "padded", "nbsp-padded", "tab-newline-padded", "host-like", "ip-like", "email-like", "url-like"];
 		let names = [["$default", "$default"], ["leaf", "ca"], ["www.example.org", "example.org.ca"], ["site.leaf", "site.ca"], ["with space", "root ca"], ["a.b.c", "a.b.d"], ["Gateway", "gateway"]];
 		let dirs = ["existing", "missing", "nested", "rerun-longer-first", "non-utf8", "unicode-spaces"];
 		for _ in 0..2500 {
